@@ -61,6 +61,15 @@ def json_docs(tier):
             top.append(["["] + a + [","] + c + ["]"])
             top.append(["{", '"a"', ":"] + a + [",", '"b"', ":"] + c + ["}"])
     top += [["[", "]"], ["{", "}"]]
+    # string contents: every string of up to 3 (thorough 4) pieces - plain, blank, escapes, non-ASCII - as an array element and as key and value
+    pieces = ["a", " ", "\\n", '\\"', "\\\\", "é", "\\u00e9", "/", "\\/", "\\t", "0"]
+    for k in range(0, (3 if tier == "quick" else 4) + 1):
+        for t in itertools.product(pieces, repeat=k):
+            lit = '"' + "".join(t) + '"'
+            top.append(["[", lit, "]"])
+            if k <= 2:
+                top.append(["{", lit, ":", lit, "}"])
+                top.append(["[", lit, ",", lit, "]"])
     return top
 
 
@@ -513,7 +522,7 @@ def run(tier: str) -> int:
         "evaluations": agg.get("evaluations", 0),
         "distinct_nontrivial": agg.get("docs", 0) + agg.get("kept", 0),
         "rule": "JSON: all documents of a bounded generator (top level array or object, three nesting levels, width <= 2, scalars "
-                f"{SCALARS}), in the layouts: no whitespace, one space at every gap, leading space, and each single gap set to newline+tab; both bundled JSON grammars x four modes; the tree must mirror json.loads "
+                f"{SCALARS}) plus every string literal of up to 3 (thorough 4) pieces from {{a, blank, \\n, \\\", \\\\, é, \\u00e9, /, \\/, \\t, 0}} as array element, and up to 2 pieces as key and value and as two elements, in the layouts: no whitespace, one space at every gap, leading space, and each single gap set to newline+tab; both bundled JSON grammars x four modes; the tree must mirror json.loads "
                 "(nesting, member order, float(number text) == value, json.loads(string pair text) == value) and, for the first two layouts, every proper prefix must be rejected. "
                 "Calculator: every well-formed token string -* T !* (op -* T !*)* with T an operand from {0,1,2,3,x} or a parenthesised expression, up to N tokens, in two layouts; an expression is kept only if EVERY bracketing of it "
                 "evaluates without error and within 1e6 under an independent evaluator (so any tree an implementation builds is safe to evaluate); the three implementations, with parser modules generated in memory from the optimised and from the unoptimised grammar, "
